@@ -20,13 +20,15 @@ PID = "C06"
 
 META = dict(
     level="other",
-    stubs=["ytools.mattype(m, 'symmetric') -> True for the (symmetric by construction) symbolic mass", "m.astype(float) on symbolic data -> identity (AST hook)",
+    stubs=["effective-mass block of cbcheck (statements from the AST): report file -> sink, writer.vecwrite -> no-op, format() of a symbolic number -> placeholder text, pd.DataFrame -> record of (values, index, columns); "
+           "comparisons of the symbolic percent table with em_filt decided element by element",
+           "ytools.mattype(m, 'symmetric') -> True for the (symmetric by construction) symbolic mass", "m.astype(float) on symbolic data -> identity (AST hook)",
            "np.array / np.zeros / np.ones in cb.py -> object arrays for symbolic data", "uset_convert: pandas arithmetic on an object-dtype DataFrame holding the symbolic values (pandas own code, elementwise Python operators)", "la.lu_solve inside SolveUnc.fsolve with symbolic right-hand side -> multiplication by the concrete inverse"],
-    outside=["cbcheck: its three rigid-body constructions, effective-mass bookkeeping and grounding numbers rest on eigh / pinv / LU of the model and on report printing - no kernel with symbolic data is in reach; "
+    outside=["cbcheck: its three rigid-body constructions and grounding numbers rest on eigh / pinv / LU of the model and on report printing - no kernel with symbolic data is in reach; "
              "not claimed", "cgmass principal axes (eigh)", "mk_net_drms, rbmultchk, rbdispchk, cbcoordchk"],
     assumptions=["cgmass: mass > 0, cg in [-10, 10]^3, any symmetric cg inertia in [-10, 10]", "cbtf: three Craig-Bampton models listed in the evidence, 0.5 / 4 / 23 Hz, symbolic complex boundary acceleration",
                  "cbconvert/cbreorder: 6 boundary + 2 modal DOF, symbolic matrix entries"],
-    reach_required=["uset-convert", "cgmass", "cbtf", "cbtf-unsorted-bset", "cbreorder", "cbconvert"],
+    reach_required=["effmass-filter", "effmass-nofilter", "uset-convert", "cgmass", "cbtf", "cbtf-unsorted-bset", "cbreorder", "cbconvert"],
     trusted_base=["z3 5.1", "NumPy indexing semantics"],
 )
 
@@ -409,13 +411,174 @@ def replay_usetconv(p):
     return False, "uset_convert fine on the real code"
 
 
-REPLAY = {"usetconv": replay_usetconv, "cgmass": replay_cgmass, "cbtf": replay_cbtf, "reorder": replay_reorder}
+# ---------------------------------------------------------------------------
+# cbcheck: the modal-effective-mass block (its statements compiled from the function's AST, from `dirstr = ...` to the
+# return): the returned tables are the definition for every retained mode, whatever the print filter `em_filt`
+
+_EM = {}
+
+
+def _effmass_block():
+    if "f" in _EM:
+        return _EM["f"], _EM["id"]
+    import ast
+    import hashlib
+    import inspect
+    import textwrap
+    import pyyeti.cb as cb
+    tree = ast.parse(textwrap.dedent(inspect.getsource(cb.cbcheck)))
+    body = tree.body[0].body
+    k = next(i for i, st in enumerate(body) if isinstance(st, ast.Assign) and isinstance(st.targets[0], ast.Name) and st.targets[0].id == "dirstr")
+    assert isinstance(body[-1], ast.Return)
+    ret = ast.Return(ast.Tuple([ast.Name(nm, ast.Load()) for nm in ("effmass", "effmass_percent", "frq")], ast.Load()))
+    args = ["f", "bset", "n", "k", "m", "rbg", "mg", "em_filt", "np", "locate", "math", "writer", "pd"]
+    fn = ast.FunctionDef(name="effblock", args=ast.arguments(posonlyargs=[], args=[ast.arg(a) for a in args], kwonlyargs=[], kw_defaults=[], defaults=[]),
+                         body=body[k:-1] + [ret], decorator_list=[], type_params=[])
+    mod = ast.Module(body=[fn], type_ignores=[])
+    ast.fix_missing_locations(mod)
+    g = {}
+    exec(compile(mod, "<cbcheck: modal effective mass block>", "exec"), g)
+    _EM["f"], _EM["id"] = g["effblock"], hashlib.sha256(ast.unparse(mod).encode()).hexdigest()[:12]
+    return _EM["f"], _EM["id"]
+
+
+class _DArr(np.ndarray):
+    """object array whose comparisons are decided element by element (NumPy boolean masks)"""
+
+    def _cmp(self, o, f):
+        a = np.asarray(self)
+        ob = np.broadcast_to(np.asarray(o, dtype=object), a.shape)
+        out = np.zeros(a.shape, bool)
+        for idx in np.ndindex(*a.shape):
+            out[idx] = bool(f(a[idx], ob[idx]))
+        return out
+
+    def __gt__(self, o):
+        return self._cmp(o, lambda x, y: x > y)
+
+    def __lt__(self, o):
+        return self._cmp(o, lambda x, y: x < y)
+
+
+class _Frame:
+    """pd.DataFrame(values, index=, columns=).rename_axis(...): keeps what it was given"""
+
+    def __init__(self, values, index=None, columns=None):
+        self.values, self.index, self.columns = values, index, columns
+
+    def rename_axis(self, *a, **k):
+        return self
+
+
+class _PD:
+    DataFrame = _Frame
+
+
+def effmass_fn(bset, n):
+    def fn(eng):
+        S.set_engine(eng)
+        import math
+        import pyyeti.locate as locate
+        blk, _ = _effmass_block()
+        bset_ = np.array(bset)
+        qset = [i for i in range(n) if i not in bset]
+        nb, nq = len(bset), len(qset)
+        M = np.zeros((n, n), dtype=object)
+        mz = {}
+        for qi, q in enumerate(qset):
+            for bi, b_ in enumerate(bset):
+                z = z3.Real("m%d_%d" % (q, b_))
+                eng.assume(z3.And(z >= -10, z <= 10))
+                M[q, b_] = S.SymR(z)
+                mz[(qi, bi)] = z
+        # rigid-body modes: concrete, non-zero in two directions only (every non-zero column is one more fork of the print filter)
+        rbv = [[Fraction(3 * i + j + 1, 4) if j in (0, 3) else Fraction(0) for j in range(6)] for i in range(nb)]
+        rb = np.empty((nb, 6), dtype=object)
+        rz = [[z3.RealVal(rbv[i][j]) for j in range(6)] for i in range(nb)]
+        for i in range(nb):
+            for j in range(6):
+                rb[i, j] = rbv[i][j]
+        mgz = [z3.Real("mg%d" % j) for j in range(6)]
+        MG = np.zeros((6, 6), dtype=object)
+        for j in range(6):
+            eng.assume(z3.And(mgz[j] >= 1, mgz[j] <= 1000))
+            MG[j, j] = S.SymR(mgz[j])
+        K = np.diag([0.0 if i in bset else 400.0 * (i + 1) for i in range(n)])
+        ef = z3.Real("em_filt")
+        eng.assume(z3.And(ef >= 0, ef <= 100))
+        info = dict(bset=list(bset), n=n)
+
+        class Sink:
+            def write(self, s_):
+                pass
+
+        class W:
+            @staticmethod
+            def vecwrite(*a, **k):
+                pass
+        old = getattr(S.SymR, "__format__", None)
+        S.SymR.__format__ = lambda s_, spec: format(1.0, spec)        # report text is not the subject
+        try:
+            em, emp, frq = blk(Sink(), bset_, n, K, M.view(_DArr), rb, MG, S.SymR(ef), np, locate, math, W, _PD)
+        except E.Inconclusive:
+            raise
+        except Exception as ex:
+            import traceback
+            return [E.Obl("effective-mass block raises %r (%s)" % (ex, traceback.format_exc()[-300:]), False, info=info)]
+        finally:
+            if old is None:
+                del S.SymR.__format__
+            else:
+                S.SymR.__format__ = old
+        filtered = eng.decide(ef > 0)
+        eng.tag("effmass-filter" if filtered else "effmass-nofilter")
+        obls = [E.Obl("cbcheck: effective-mass tables have one row per retained (q-set) mode and 6 columns, with or without the print filter (%s, %s, %s)"
+                      % (np.shape(em.values), np.shape(emp.values), np.shape(frq)), np.shape(em.values) == (nq, 6) and np.shape(emp.values) == (nq, 6) and np.shape(frq) == (nq,), info=info)]
+        if np.shape(em.values) != (nq, 6) or np.shape(emp.values) != (nq, 6) or np.shape(frq) != (nq,):
+            return obls
+        want_f = [math.sqrt(abs(K[q, q])) / (2 * math.pi) for q in qset]
+        obls.append(E.Obl("cbcheck: cb_frq lists the fixed-base frequency of every retained mode", np.allclose(np.asarray(frq, float), want_f) and np.allclose(np.asarray(em.index, float), want_f), info=info))
+        for qi in range(nq):
+            for j in range(6):
+                part = z3.Sum([mz[(qi, bi)] * rz[bi][j] for bi in range(nb)])
+                obls.append(E.Obl("cbcheck: effmass[%d,%d] = (m_qb rb)^2" % (qi, j), S.lift(em.values[qi, j]) == part * part, info=info))
+                obls.append(E.Obl("cbcheck: effmass_percent[%d,%d] = 100 effmass / rigid-body mass" % (qi, j), S.lift(emp.values[qi, j]) * mgz[j] == 100 * part * part, info=info))
+        return obls
+    return fn
+
+
+def replay_effmass(p):
+    """cbcheck on a small Craig-Bampton model with and without the print filter"""
+    import io
+    import pyyeti.cb as cb
+    from pyyeti.nastran import n2p
+    n = 9
+    uset = n2p.addgrid(None, 1, "b", 0, [0.0, 0.0, 0.0], 0)
+    bset = np.arange(6)
+    mqb = np.zeros((3, 6))
+    mqb[0, 0], mqb[1, 0], mqb[2, 1], mqb[2, 4] = 1.0, 0.05, 0.02, 0.3      # one mode well above a 1 % filter, one below, one mixed
+    m = np.eye(n)
+    m[:6, :6] = np.diag([10.0, 10.0, 10.0, 5.0, 5.0, 5.0])
+    m[6:, :6] = mqb
+    m[:6, 6:] = mqb.T
+    k = np.diag([0.0] * 6 + [400.0, 900.0, 2500.0])
+    outs = []
+    for filt in (0, 1.0):
+        o = cb.cbcheck(io.StringIO(), m, k, bset, bref=np.arange(6), uset=uset, uref=[0, 0, 0], em_filt=filt)
+        outs.append(o)
+    a, b_ = outs
+    if a.effmass.shape != b_.effmass.shape or not np.allclose(a.effmass.values, b_.effmass.values) or len(b_.cb_frq) != 3:
+        return True, "cbcheck(em_filt=1) returns effective-mass tables of shape %s and %d frequencies, cbcheck(em_filt=0) %s and %d" % (b_.effmass.shape, len(b_.cb_frq), a.effmass.shape, len(a.cb_frq))
+    return False, "cbcheck tables do not depend on em_filt on the real code"
+
+
+REPLAY = {"effmass": replay_effmass, "usetconv": replay_usetconv, "cgmass": replay_cgmass, "cbtf": replay_cbtf, "reorder": replay_reorder}
 
 
 def job(kind, *args):
     eng = E.Engine(obl_timeout_ms=120000)
     eng.obl_mode = "each"
-    fn = dict(cgmass=cgmass_fn, cbtf=cbtf_fn, reorder=reorder_fn, usetconv=usetconv_fn)[kind](*args)
+    fn = dict(cgmass=cgmass_fn, cbtf=cbtf_fn, reorder=reorder_fn, usetconv=usetconv_fn, effmass=effmass_fn)[kind](*args)
     res = eng.explore(fn, max_cex=3)
     res["note"] = "%s %s" % (kind, args)
 
@@ -431,7 +594,8 @@ def jobs(tier, seed):
     global CBFREQ
     if tier != "quick":
         CBFREQ = np.array([0.1, 0.5, 2.9, 4.0, 9.1, 23.0, 60.0])
-    out = [H.Job("cgmass", job, "cgmass", weight=10), H.Job("reorder-convert", job, "reorder", weight=10), H.Job("uset-convert", job, "usetconv", 1 if tier == "quick" else 3, weight=5)]
+    out = [H.Job("cgmass", job, "cgmass", weight=10), H.Job("reorder-convert", job, "reorder", weight=10), H.Job("uset-convert", job, "usetconv", 1 if tier == "quick" else 3, weight=5),
+           H.Job("effmass-b-first", job, "effmass", (0, 1), 4, weight=10), H.Job("effmass-b-last", job, "effmass", (3, 2), 4 if tier == "quick" else 5, weight=10)]
     for name in cbmodels():
         out.append(H.Job("cbtf-%s" % name, job, "cbtf", name, weight=20))
     return out
@@ -439,5 +603,5 @@ def jobs(tier, seed):
 
 def extra_coverage(results):
     import pyyeti.cb as cb
-    return dict(functions_encoded=[H.fn_id(cb.cgmass), H.fn_id(cb.cbtf), H.fn_id(cb.cbreorder), H.fn_id(cb.cbconvert), H.fn_id(cb._get_conv_factors), H.fn_id(cb.uset_convert)],
+    return dict(functions_encoded=[H.fn_id(cb.cgmass), H.fn_id(cb.cbtf), H.fn_id(cb.cbreorder), H.fn_id(cb.cbconvert), H.fn_id(cb._get_conv_factors), H.fn_id(cb.uset_convert), "cb.cbcheck[modal-effective-mass block, from the function's AST]@" + _effmass_block()[1]],
                 ast_hook_hits={"%s:%s" % k: v for k, v in astload.HITS.items()})
